@@ -160,7 +160,11 @@ struct Case {
 
 Env make_env(const Api &a, Rng &r) {
     Env e;
-    e.key = r.bytes(key_len(a.name)); e.nonce = r.bytes(nonce_len(a.name)); e.ad = r.bytes(r.below(40)); e.ic = r.next() >> (r.below(2) ? 0 : 40);
+    e.key = r.bytes(key_len(a.name)); e.nonce = r.bytes(nonce_len(a.name)); e.ad = r.bytes(r.below(40));
+    {   // initial block counter: anywhere, small, or a few blocks below a 2^32 / 2^64 boundary (the vectorised cores treat a carry inside a batch separately)
+        uint64_t rv = r.next();
+        switch (r.below(4)) { case 0: e.ic = rv; break; case 1: e.ic = rv >> 40; break; case 2: e.ic = ((rv >> 34) << 32) | (0xffffffffULL - r.below(64)); break; default: e.ic = 0xffffffffffffffffULL - r.below(40); break; }
+    }
     Bytes s1 = r.bytes(32), s2 = r.bytes(32), s3 = r.bytes(32);
     std::string nm = a.name;
     if (nm.find("crypto_box") == std::string::npos && nm.find("crypto_sign") == std::string::npos) return e;
@@ -276,6 +280,12 @@ void explore(Ctx &ctx, bool any_offset_group) {
                 if (ctx.thorough()) for (size_t mi = 1; mi < masks.size(); mi++) { Case c2{ (int) ai, len, 0, masks[mi], cs }; exec_case(ctx, c2, run, mix64(mix64(ai, len), masks[mi]), len >= 16); }
                 if (A[ai].is_open && (len % 3 == 0 || len < 70 || ctx.thorough())) { Case ct{ (int) ai, len, 0, c.mask, cs ^ 0x7a3 }; ct.tamper = true; exec_case(ctx, ct, run, mix64(mix64(ai, len), mix64(c.mask, 0x7a3)), len >= 8); }
             }
+            for (size_t len : { ((size_t) 1 << 20) + 1, ((size_t) 1 << 20) + 65, ((size_t) 1 << 21) + 17 }) {      // long messages in place
+                uint64_t cs = r.next();
+                if (!ctx.mine(idx++)) continue;
+                Case c{ (int) ai, len, 0, masks[(size_t) (cs % masks.size())], cs };
+                exec_case(ctx, c, run, mix64(mix64(ai, len), c.mask), true);
+            }
         } else {
             // every offset -80..80 x lengths with all residues mod 64 spread over 0..1280
             size_t nlen = ctx.thorough() ? 128 : (slow ? 10 : 28);
@@ -309,6 +319,14 @@ void explore(Ctx &ctx, bool any_offset_group) {
                     Case c{ (int) ai, len, sg * fo, masks[rr.below(masks.size())], cs };
                     exec_case(ctx, c, run, mix64(mix64(ai, len), mix64((uint64_t)(sg * fo + 1000), c.mask)), true);
                 }
+            }
+            // long messages: an implementation that moves or processes the message in pieces would use a piece size around a MiB
+            for (size_t len : { ((size_t) 1 << 20) + 17, ((size_t) 1 << 21) + 5 }) for (int off : { -80, -17, -1, 1, 16, 17, 63, 64, 65, 80 }) {
+                uint64_t cs = r.next();
+                if (!ctx.mine(idx++)) continue;
+                if (!ctx.thorough() && len > ((size_t) 1 << 21) && (off & 1) == 0) continue;
+                Case c{ (int) ai, len, off, masks[(size_t) (cs % masks.size())], cs };
+                exec_case(ctx, c, run, mix64(mix64(ai, len), mix64((uint64_t)(off + 100), c.mask)), true);
             }
             // opening calls that must fail, with overlapping buffers
             if (A[ai].is_open) for (int off = -80; off <= 80; off += (ctx.thorough() ? 1 : 3)) for (size_t li = 0; li < 3; li++) {
